@@ -648,6 +648,8 @@ func checkC15(c *Ctx) {
 	// (2b) R15f: the table collected from ALL files of the run (httpgen.GlobalUnwrapInfo)
 	c.checkGlobalTableReads("R15f")
 	c15ParameterSpelling(c)
+	r.Rule("R15h", "no generator sorts, or appends into the spare capacity of, a slice it does not own (a parameter, a slice of the protogen model, an option getter's result): the shared model would carry one file's or method's ordering into the next", 2)
+	sharedSliceMutation(c, "R15h", nil)
 
 	// (3) OpenAPI: one fresh generator per service
 	if mainPk := c.P.Pkg("cmd/protoc-gen-openapiv3"); mainPk == nil {
@@ -962,4 +964,139 @@ func writtenPkgVars(pk *packages.Package) ([]*types.Var, map[types.Object]token.
 		}
 	}
 	return pkgVars, written
+}
+
+// sharedSliceMutation — R15h / R09m. A slice is OWNED by a function when it was created there: make, a composite literal,
+// append to nil / to an owned slice / to a literal, slices.Clone, a repository function's result. A parameter, a field of a
+// protogen / protoreflect / generated-option value (field.Enum.Values, service.Methods, cfg.GetHeaders()) and any local
+// assigned directly from one of those — or from append(<not owned>, …), whose result shares the backing array whenever
+// there is spare capacity — is NOT owned. Sorting such a slice in place (sort.*, slices.Sort*) or reversing it reorders data
+// that later files, services or methods read.
+func sharedSliceMutation(c *Ctx, rid string, only func(*types.Func) bool) {
+	r := c.R
+	nSorts := 0
+	for fn, decl := range c.P.Decls {
+		if decl.Body == nil || !isRepoGenPkg(fn) || strings.Contains(c.P.Pos(decl.Pos()), "_test.go") {
+			continue
+		}
+		if only != nil && !only(fn) {
+			continue
+		}
+		info := c.P.DeclPkg[fn].TypesInfo
+		params := map[types.Object]bool{}
+		if decl.Recv != nil {
+			for _, f := range decl.Recv.List {
+				for _, nm := range f.Names {
+					params[info.ObjectOf(nm)] = true
+				}
+			}
+		}
+		for _, f := range decl.Type.Params.List {
+			for _, nm := range f.Names {
+				params[info.ObjectOf(nm)] = true
+			}
+		}
+		// definitions of slice-typed locals
+		defs := map[types.Object][]ast.Expr{}
+		ast.Inspect(decl.Body, func(n ast.Node) bool {
+			if as, ok := n.(*ast.AssignStmt); ok && len(as.Lhs) == len(as.Rhs) {
+				for i, l := range as.Lhs {
+					if id, ok := l.(*ast.Ident); ok {
+						if o := info.ObjectOf(id); o != nil {
+							defs[o] = append(defs[o], as.Rhs[i])
+						}
+					}
+				}
+			}
+			return true
+		})
+		var owned func(e ast.Expr, depth int) (bool, string)
+		owned = func(e ast.Expr, depth int) (bool, string) {
+			e = ast.Unparen(e)
+			if depth > 6 {
+				return true, ""
+			}
+			switch x := e.(type) {
+			case *ast.CompositeLit:
+				return true, ""
+			case *ast.Ident:
+				if x.Name == "nil" {
+					return true, ""
+				}
+				o := info.ObjectOf(x)
+				if params[o] {
+					return false, "the parameter " + x.Name
+				}
+				ds := defs[o]
+				if len(ds) == 0 {
+					return true, "" // declared with var: starts nil
+				}
+				for _, d := range ds {
+					if ok, why := owned(d, depth+1); !ok {
+						return false, why
+					}
+				}
+				return true, ""
+			case *ast.SelectorExpr:
+				return false, "the shared value " + types.ExprString(x)
+			case *ast.SliceExpr:
+				return owned(x.X, depth+1)
+			case *ast.CallExpr:
+				if id, ok := x.Fun.(*ast.Ident); ok {
+					if _, isB := info.ObjectOf(id).(*types.Builtin); isB {
+						switch id.Name {
+						case "make":
+							return true, ""
+						case "append":
+							if len(x.Args) > 0 {
+								return owned(x.Args[0], depth+1)
+							}
+						}
+						return true, ""
+					}
+				}
+				if cal := Callee(info, x); cal != nil {
+					if cal.Pkg() != nil && (cal.Pkg().Path() == "slices" && (cal.Name() == "Clone" || cal.Name() == "Collect" || cal.Name() == "Sorted")) {
+						return true, ""
+					}
+					if sig, ok := cal.Type().(*types.Signature); ok && sig.Recv() != nil && strings.HasPrefix(cal.Name(), "Get") {
+						return false, "the option value " + types.ExprString(x)
+					}
+				}
+				return true, "" // a function's result is that function's to hand out
+			}
+			return true, ""
+		}
+		ast.Inspect(decl.Body, func(n ast.Node) bool {
+			call, ok := n.(*ast.CallExpr)
+			if !ok || len(call.Args) == 0 {
+				return true
+			}
+			cal := Callee(info, call)
+			if cal == nil || cal.Pkg() == nil {
+				return true
+			}
+			inPlace := (cal.Pkg().Path() == "sort" && (cal.Name() == "Slice" || cal.Name() == "SliceStable" || cal.Name() == "Strings" || cal.Name() == "Ints" || cal.Name() == "Float64s" || cal.Name() == "Sort" || cal.Name() == "Stable")) ||
+				(cal.Pkg().Path() == "slices" && (strings.HasPrefix(cal.Name(), "Sort") || cal.Name() == "Reverse"))
+			if !inPlace {
+				return true
+			}
+			tv, ok := info.Types[call.Args[0]]
+			if !ok || tv.Type == nil {
+				return true
+			}
+			if _, isSlice := tv.Type.Underlying().(*types.Slice); !isSlice {
+				return true
+			}
+			nSorts++
+			ok2, why := owned(call.Args[0], 0)
+			key := fmt.Sprintf("%s: %s.%s(%s) orders a slice the function owns", FuncName(fn), cal.Pkg().Name(), cal.Name(), types.ExprString(call.Args[0]))
+			r.Check(ok2, rid, key, c.P.Pos(call.Pos()),
+				fmt.Sprintf("%s sorts %s in place, which is (or may share its backing array with) %s: the reordering — and, after append into spare capacity, foreign elements — stay in the shared model, so what is generated for a later file, service or method depends on what was generated before it", FuncName(fn), types.ExprString(call.Args[0]), why))
+			return true
+		})
+	}
+	if nSorts == 0 {
+		r.Unres(rid, "in-place sorts in generator packages", "", "none found")
+	}
 }
